@@ -34,6 +34,10 @@ PoolOf(ty) == IF ty[1] = "a" THEN {FixAddr(k) : k \in Pool(ty[2])} \cup {MinWc(t
 Val(k) == LET src == k \o Alt(32, Len(k)) IN [i \in 1..32 |-> (src[i] + (IF i % 3 = 0 THEN 1 ELSE 0)) % 2]
 Val2(k) == [i \in 1..32 |-> 1 - Val(k)[i]]
 
+\* Vectors spell bit strings with the letters o (0) and i (1): the runner scans TLC's whole output with patterns that look
+\* for numbers, and megabytes of 512-digit runs cost it minutes; it translates the letters back for the vectors it replays.
+Lt(b) == CodesToStr([i \in 1..Len(b) |-> IF b[i] = 1 THEN 105 ELSE 111])
 SortedItems(m) == SortSeq(SetToSeq(m), LAMBDA a, b : BitsLess(a[1], b[1]))
 ItemsJson(m) == LET s == SortedItems(m) IN [i \in 1..Len(s) |-> <<BitsToStr(s[i][1]), BitsToStr(s[i][2])>>]
+ItemsLt(m) == LET s == SortedItems(m) IN [i \in 1..Len(s) |-> <<Lt(s[i][1]), Lt(s[i][2])>>]
 =============================================================================
